@@ -247,6 +247,13 @@ func (e *env) once(cs *caseRec) *result {
 			shape = mismatchClass(cs.Script)
 		}
 		res.Sig = shape + "/" + res.Kind
+		// {A} && {B}: is the answer exactly what intersecting the selectors' span sets (instead of their trace
+		// sets) gives? Then it is that one defect whatever the terms are; any other wrong answer keeps its own signature.
+		if len(cs.Script.Sels) == 2 && cs.Script.Ops[0] == "&&" && (strings.HasPrefix(res.Kind, "trace-set-differs") || strings.HasPrefix(res.Kind, "limit/")) {
+			if alt, err := rt.EvalSpanIntersect(cs.Script, cs.DB, from, to, rt.Reading{}); err == nil && rt.ValidCut(alt, a.traceIDs(), cs.Req.Limit) == "" {
+				res.Sig = "{A}&&{B}/spans-intersected-instead-of-traces"
+			}
+		}
 	}
 	return res
 }
